@@ -84,6 +84,7 @@ def run(ctx):
     syskinds = ["sort", "select", "filter", "derive", "take", "window", "join", "group_agg"]
     syscases = [c for c in relgen.systematic_cases(3 if quick else 4, SAFE, seed=44, sample=(random.Random(44), 512 if quick else 2500), kinds=syskinds)
                 if "window" in c.seq]
+    syscases += relgen.inherited_order_cases(SAFE, variants=3 if quick else 6)
     ctx.coverage_extra["systematic_window_sequences"] = len(syscases)
     for label, rng, n in [("systematic", None, 0), ("fixed", random.Random(404), 500 if quick else 5000), ("seed", ctx.rng, 300 if quick else 5000)]:
         cases = syscases if label == "systematic" else [relgen.make_case(rng, kinds=WIN_KINDS, max_tr=4, **SAFE) for _ in range(n)]
